@@ -175,6 +175,25 @@ func loadKnown(prop string) []knownFinding {
 	return out
 }
 
+// knownMatches: a listed finding covers a violation key it matches; a delay violation reached with
+// several held goroutines ("siteA+siteB") is covered when holding one of them alone is a listed
+// finding (the single-site violation is explored, and reported, at the lower bound).
+func knownMatches(k knownFinding, key string) bool {
+	if k.key.MatchString(key) {
+		return true
+	}
+	i := strings.LastIndex(key, "/")
+	if i < 0 || !strings.Contains(key[i:], "+") || !strings.Contains(key[i:], "before-") {
+		return false
+	}
+	for _, site := range strings.Split(key[i+1:], "+") {
+		if k.key.MatchString(key[:i+1] + site) {
+			return true
+		}
+	}
+	return false
+}
+
 func envInt(name string, def int) int {
 	if v, err := strconv.Atoi(os.Getenv(name)); err == nil {
 		return v
@@ -397,7 +416,7 @@ func coordinator(prop, tier string) int {
 			seenKey[v.Key] = true
 			isKnown := false
 			for _, k := range known {
-				if k.key.MatchString(v.Key) {
+				if knownMatches(k, v.Key) {
 					isKnown = true
 				}
 			}
@@ -417,7 +436,7 @@ func coordinator(prop, tier string) int {
 	printed := map[string]bool{}
 	for _, kv := range knownV {
 		for _, k := range known {
-			if k.key.MatchString(kv.v.Key) && !printed[k.raw] {
+			if knownMatches(k, kv.v.Key) && !printed[k.raw] {
 				printed[k.raw] = true
 				fmt.Printf("KNOWN-FINDING: property=%s %s [%s]\n", prop, k.text, k.raw)
 			}
